@@ -230,8 +230,11 @@ func c11Case(ctx *genCtx, ts *tape.Set, dir string) *genResult {
 				w.Unfmt = append(w.Unfmt, false)
 				w.LineDir = append(w.LineDir, "")
 			}
-			w.UserFuncs = append(w.UserFuncs, world.UserFunc{Name: cand, File: w.NFiles - 1,
-				Text: fmt.Sprintf("func %s(a, b complex64) complex64 { return a - b }\n\nvar _ = %s(1, 2)\n", cand, cand)})
+			text := fmt.Sprintf("func %s(a, b complex64) complex64 { return a - b }\n\nvar _ = %s(1, 2)\n", cand, cand)
+			if mt.Bool() {
+				text = fmt.Sprintf("var %s = func(a, b complex64) complex64 { return a - b }\n\nvar _ = %s(1, 2)\n", cand, cand)
+			}
+			w.UserFuncs = append(w.UserFuncs, world.UserFunc{Name: cand, File: w.NFiles - 1, Text: text})
 		}
 		res.probe("world.reserved_fresh_name_candidate")
 	}
@@ -265,6 +268,13 @@ func c11Case(ctx *genCtx, ts *tape.Set, dir string) *genResult {
 	if plans[1].MapMode == "identity" {
 		plans[1].MapMode = "reverse"
 	}
+	// the verdict on p is the verdict of the run, also when clean packages are processed in the same run, in any order
+	pkgArgs := []string{"./p"}
+	if w.HasExt && ts.Fork("pkgargs").Bool() {
+		pkgArgs = []string{"./p", "./ext", "./other/ext", "./msg-go"}
+		plans[0].PkgOrder, plans[1].PkgOrder = uint64(1+pt.Intn(1<<16)), uint64(1+pt.Intn(1<<16))
+		res.probe("variant.clean_packages_in_the_same_run")
+	}
 	combos := [][]string{nil, {"-autoname"}, {"-dedup"}, {"-autoname", "-dedup"}}
 	var verdicts []string
 	for ci, flags := range combos {
@@ -272,7 +282,7 @@ func c11Case(ctx *genCtx, ts *tape.Set, dir string) *genResult {
 		for pi, plan := range plans {
 			vd := filepath.Join(dir, fmt.Sprintf("c%d_%d", ci, pi))
 			copyTree(base, vd, nil)
-			r := runGoderive(ctx.bins.inst, vd, append(append(append([]string{}, pflags...), flags...), "./p"), plan, 0)
+			r := runGoderive(ctx.bins.inst, vd, append(append(append([]string{}, pflags...), flags...), pkgArgs...), plan, 0)
 			res.count(r)
 			exits[pi] = r.Exit
 			facts := map[string]string{"stderr": r.Stderr, "flags": strings.Join(append(append([]string{}, pflags...), flags...), " "), "sources": joinFiles(userSources(files)), "profile": profile}
